@@ -143,7 +143,7 @@ class Env:
         k = k_interval
         j = k if node is None else node
         d = {}
-        d["p"] = H.veccat(H.P)
+        d["p"] = H.veccat(H.P[:len(self.spec.params.get("", []))])      # the user's own global parameters (a parametric T / t0 adds further ones behind them)
         d["pc"] = H.veccat([p[k] for p in H.P_control])
         d["pcp"] = H.veccat([p[j] for p in H.P_control_plus])
         nv = sum(self.spec.variables.get("", []))        # the user's own global variables come first;
